@@ -54,6 +54,7 @@ def rule_even(ctx):
 
 def run(ctx):
     ctx.do(F.rule_md1)
+    ctx.do(F.rule_n2)
     ctx.do(F.rule_hid1)
     ctx.do(F.rule_b1)
     ctx.do(F.rule_b2)
